@@ -99,18 +99,23 @@ Theorem published_is_newer : forall c l o,
 Proof. exact published_is_newer_proof. Qed.
 Print Assumptions published_is_newer.
 
-(* ---- checkpoints_resume (repaired code: neither quirk): after ANY history that leaves the job Running - whatever
-   failed before, during a deployment or with a checkpoint in flight - a tick starts a fresh checkpoint on the
-   runners of the running assembly, and the acks of its members, in any order, are all accepted and publish it. *)
-Theorem checkpoints_resume : forall c l acks,
+(* ---- checkpoints_resume (repaired code): after ANY history that leaves the job Running - whatever failed before,
+   during a deployment or with a checkpoint OR SAVEPOINT in flight (the histories contain OSavepoint: a requested
+   savepoint and a periodic checkpoint upgraded to one are pending snapshots like any other) - a tick, and equally a
+   savepoint request, starts a fresh checkpoint on the runners of the running assembly, and the acks of its members, in
+   any order, are all accepted and publish it. *)
+Theorem checkpoints_resume : forall c l acks starter,
   q_keep_pending (qk c) = false -> q_splitters_accumulate (qk c) = false -> (0 < wc c)%nat ->
+  starter = OTick \/ starter = OSavepoint ->
   let s := exec c l in
   stat s = Running -> pend (sto s) = None ->
   let id := ctr (sto s) + 1 in
   NoDup acks -> (forall a, In a acks <-> member_ack s id a) ->
-  let s1 := fst (step c s OTick) in
+  let s1 := fst (step c s starter) in
   let r := run c s1 acks in
-  o_started (snd (step c s OTick)) = a_srs s /\ o_cid (snd (step c s OTick)) = id /\
+  o_started (snd (step c s starter)) = a_srs s /\ o_cid (snd (step c s starter)) = id /\
+  o_res (snd (step c s starter)) = 0 /\
+  (forall p, pend (sto s1) = Some p -> p_sp p = starter_sp starter) /\
   completed (sto s) < id /\
   pend (sto (fst r)) = None /\ completed (sto (fst r)) = id /\
   Forall (fun b => o_res b = 0) (snd r) /\ (exists b, In b (snd r) /\ o_published b = id) /\
@@ -118,10 +123,28 @@ Theorem checkpoints_resume : forall c l acks,
 Proof. exact checkpoints_resume_proof. Qed.
 Print Assumptions checkpoints_resume.
 
+(* every deployment begins with NOTHING pending, whatever kind of snapshot was in flight when the assembly was lost;
+   so the hypothesis [pend = None] of checkpoints_resume holds when the new assembly becomes Running *)
+Theorem start_clears_pending : forall c l o d,
+  q_keep_pending (qk c) = false -> q_keep_savepoint (qk c) = false ->
+  In d (o_deps (snd (step c (exec c l) o))) -> pend (sto (fst (step c (exec c l) o))) = None.
+Proof. exact start_clears_pending_proof. Qed.
+Print Assumptions start_clears_pending.
+
+(* a savepoint request on a Running job with a periodic checkpoint in flight folds into it: same id, nothing started,
+   members and ack flags kept (so checkpoints_resume_inflight applies to it unchanged) *)
+Theorem savepoint_folds : forall c s p,
+  stat s = Running -> pend (sto s) = Some p -> p_sp p = false ->
+  step c s OSavepoint =
+  (set_sto s (MkStore (Some (MkPending (p_id p) (p_ops p) (p_srs p) true)) (completed (sto s)) (ctr (sto s)) (splitters (sto s))),
+   MkObs (status_code Running) [] [] (p_id p) 0 0 0).
+Proof. exact savepoint_folds_proof. Qed.
+Print Assumptions savepoint_folds.
+
 (* a checkpoint still in flight in a Running state belongs to the running assembly (never to a lost one), and the
    acks still missing complete it *)
 Theorem checkpoints_resume_inflight : forall c l p acks,
-  q_keep_pending (qk c) = false -> q_splitters_accumulate (qk c) = false ->
+  q_keep_pending (qk c) = false -> q_keep_savepoint (qk c) = false -> q_splitters_accumulate (qk c) = false ->
   let s := exec c l in
   stat s = Running -> pend (sto s) = Some p ->
   NoDup acks -> (forall a, In a acks <-> ack_of (p_id p) p a) -> acks <> [] ->
@@ -145,7 +168,7 @@ Print Assumptions operator_slot_resumes.
 (* ---- the code before the repairs violates checkpoints_resume (D18a, D30, D18b): computed witnesses, each
    replayed on the implementation by corpus/job/*.json *)
 Theorem checkpoints_resume_refuted_keep_pending :
-  let c := cfg_of (MkQuirks true false false) in
+  let c := cfg_of (MkQuirks true false false false) in
   let s := exec c hist_d18 in
   stat s = Running /\ a_ops s = [1] /\ a_srs s = [0] /\
   forall k, let s' := fst (run c s (repeat OTick k ++ [OAckOp 1 1; OAckSr 0 1; OAckOp 1 2; OAckSr 0 2; OTick])) in
@@ -154,13 +177,25 @@ Proof. exact checkpoints_resume_refuted_keep_pending_proof. Qed.
 Print Assumptions checkpoints_resume_refuted_keep_pending.
 
 Theorem checkpoints_resume_refuted_splitters :
-  let c := cfg_of (MkQuirks false true false) in
+  let c := cfg_of (MkQuirks false true false false) in
   let s := exec c hist_d30 in
   stat s = Running /\ a_ops s = [1] /\ a_srs s = [0] /\ pend (sto s) = None /\
   map o_res (snd (run c s [OTick; OAckOp 1 2; OAckSr 0 2])) = [0; 0; 2] /\
   completed (sto (fst (run c s [OTick; OAckOp 1 2; OAckSr 0 2]))) = 1.
 Proof. exact checkpoints_resume_refuted_splitters_proof. Qed.
 Print Assumptions checkpoints_resume_refuted_splitters.
+
+(* seeded C15-3 (an abort that spares savepoints): with a requested savepoint, or a checkpoint upgraded to one, in flight
+   when the operator leaves, the new assembly runs but ticks start nothing, savepoint requests fail, and no ack completes anything *)
+Theorem checkpoints_resume_refuted_keep_savepoint :
+  let c := cfg_of (MkQuirks false false false true) in
+  forall h, h = hist_sp_a \/ h = hist_sp_b ->
+  let s := exec c h in
+  stat s = Running /\ a_ops s = [1] /\ a_srs s = [0] /\
+  step c s OTick = (s, mk_obs s []) /\ o_res (snd (step c s OSavepoint)) = 1 /\ fst (step c s OSavepoint) = s /\
+  completed (sto (fst (run c s [OAckOp 1 1; OAckSr 0 1; OAckOp 1 2; OAckSr 0 2]))) = 0.
+Proof. exact checkpoints_resume_refuted_keep_savepoint_proof. Qed.
+Print Assumptions checkpoints_resume_refuted_keep_savepoint.
 
 Theorem operator_slot_refuted :
   let o1 := fst (oper_barriers (oper_deploy original (MkOper [] None) [0; 1]) [0] 4) in
@@ -187,3 +222,12 @@ Proof. vm_compute. reflexivity. Qed.
 Example kill_history_statuses :
   map o_status (snd (run c2 init hist_kill)) = [0; 0; 0; 0; 2; 3; 3; 3; 3; 3; 3; 3; 3; 3; 3; 1; 2; 3].
 Proof. vm_compute. reflexivity. Qed.
+
+(* the two savepoint histories on the repaired code: the new assembly starts with nothing pending and checkpoint 2 completes *)
+Example savepoint_histories_recover :
+  forall h, h = hist_sp_a \/ h = hist_sp_b ->
+  let c := cfg_of current in let s := exec c h in
+  stat s = Running /\ pend (sto s) = None /\
+  completed (sto (fst (run c s [OTick; OAckOp 1 2; OAckSr 0 2]))) = 2 /\
+  completed (sto (fst (run c s [OSavepoint; OAckSr 0 2; OAckOp 1 2]))) = 2.
+Proof. intros h [-> | ->]; vm_compute; repeat split; reflexivity. Qed.
